@@ -806,6 +806,35 @@ Theorem rays_init_ok : forall (T V PS : Type) (size : PS -> nat) (tshape : nat *
   /\ ro_bits r = b /\ ro_path r = fp /\ ro_order r = make_indices_order oarg ilay [length X; n; m].
 Proof. exact rays_init_wf. Qed.
 
+(* REPAIR (order of the checks of Rays.__init__, ray.py:296-300): the assertion is the chained comparison
+   times.shape == interior_indices.shape[1:] == (len(points[0]), len(points[-1])), which short-circuits.
+   The model used to evaluate the end lengths first (a number at an end of the path -> TypeError, whatever
+   the shapes); now, as in the library, unequal shapes are an AssertionError whatever the path is, and the
+   end lengths are looked at only when the first two shapes agree.  rays_init_ok above is unchanged. *)
+Theorem rays_init_shape_first : forall (T V PS : Type) (size : PS -> nat) (tshape : nat * nat)
+    (times : list (list T)) (tlay : order) (d n m : nat) (X : list (list (list Z))) (ilay : order) (b : Z)
+    (fp : list (item V PS)) (oarg : option order),
+  tshape <> (n, m) ->
+  rays_init size tshape times tlay (d, (n, m)) X ilay b fp oarg = inl AssertionError.
+Proof.
+  intros T V PS size [a c] times tlay d n m X ilay b fp oarg Hne. unfold rays_init. cbn [fst snd].
+  destruct (nat2_eqb (a, c) (n, m)) eqn:E; cbn [negb]; [|reflexivity].
+  unfold nat2_eqb in E. cbn [fst snd] in E. apply andb_prop in E as [E1 E2].
+  apply Nat.eqb_eq in E1, E2. subst. now contradiction Hne.
+Qed.
+
+(* ... and with equal shapes, end lengths that cannot be taken (a number at an end position of the path,
+   or no points at all) are the TypeError / IndexError of len(points[0]) *)
+Theorem rays_init_ends_second : forall (T V PS : Type) (size : PS -> nat) (times : list (list T))
+    (tlay : order) (d n m : nat) (X : list (list (list Z))) (ilay : order) (b : Z)
+    (fp : list (item V PS)) (oarg : option order),
+  ends_len size fp = None ->
+  rays_init size (n, m) times tlay (d, (n, m)) X ilay b fp oarg = inl OtherError.
+Proof.
+  intros T V PS size times tlay d n m X ilay b fp oarg He. unfold rays_init. cbn [fst snd].
+  unfold nat2_eqb at 1. cbn [fst snd]. rewrite !Nat.eqb_refl. cbn [andb negb]. now rewrite He.
+Qed.
+
 (* to_fortran_order: same values, times and indices both in Fortran order, whatever the shape *)
 Theorem rays_to_fortran_order : forall (T V PS : Type) (size : PS -> nat) (r : rays_obj T V PS),
   wf_obj T V PS size r ->
@@ -1023,6 +1052,17 @@ Proof.
   - eexists. split; [vm_compute; reflexivity|]. repeat split; vm_compute; reflexivity.
   - eexists. split; [vm_compute; reflexivity|]. repeat split; vm_compute; reflexivity.
 Qed.
+
+(* a number at the first position of the FermatPath (1.5, 0.5, P2, 0.5, P1, 1.0, P1, 0.5, P2): with
+   times.shape (2, 2) and interior shape (3, 1, 1) the library raises AssertionError (the chained comparison
+   stops at the first inequality), with times.shape (1, 1) TypeError (replayed on the library) *)
+Example rays_number_at_end_example :
+  let fp := [IV (3#2)%Q; IV (1#2)%Q; IP exP2; IV (1#2)%Q; IP exP1; IV (1#1)%Q; IP exP1; IV (1#2)%Q; IP exP2] in
+  rays_init psize (2, 2) [[0; 0]; [0; 0]]%Q OC (3, (1, 1)) [[[0%Z]]; [[0%Z]]; [[0%Z]]] OC 32 fp None
+  = inl AssertionError
+  /\ rays_init psize (1, 1) [[0]]%Q OC (3, (1, 1)) [[[0%Z]]; [[0%Z]]; [[0%Z]]] OC 32 fp None
+     = inl OtherError.
+Proof. split; vm_compute; reflexivity. Qed.
 
 (* get_coordinates (x of exP1 = 0, 3, 0) and gone_through_extreme_points (3 points: 0 and 2 are
    extreme) on the interior layer [[0, 0], [1, 1]] of solve_example; a negative index counts from
